@@ -105,7 +105,7 @@ func runUpDown(vec map[string]interface{}) map[string]interface{} {
 	obs["tlist"] = tl
 	obs["qlist"] = ql
 	if gBool(vec, "cli") {
-		for k, v := range cliRun(cliCase{files: map[string][]byte{"ref.fa": refFa, "t.fa": tFa}, args: []string{"updown", "list", "-r", "@ref.fa", "-q", "@t.fa"}, inproc: string(tCsv)}) {
+		for k, v := range cliRun(cliCase{files: map[string][]byte{"ref.fa": refFa, "t.fa": tFa}, args: []string{"updown", "list", "-r", "@ref.fa", "-q", "@t.fa"}, inproc: string(tCsv), outflag: "-o"}) {
 			obs["list_"+k] = v
 		}
 	}
@@ -183,7 +183,7 @@ func runUpDown(vec map[string]interface{}) map[string]interface{} {
 			files["ignore.txt"] = []byte(strings.Join(ignore, "\n") + "\n")
 			args = append(args, "--ignore", "@ignore.txt")
 		}
-		for k, v := range cliRun(cliCase{files: files, args: args, inproc: ff}) {
+		for k, v := range cliRun(cliCase{files: files, args: args, inproc: ff, outflag: "-o"}) {
 			res[k] = v
 		}
 	}
